@@ -178,11 +178,11 @@ def r01_2_3(duke, R, S):
             reads = [r[1] for r in D.reads_of(ev)[1:]]
             want_prefix = ["align4", "i32:label", "i32", "i32"] if nm == "tableswitch" else ["align4", "i32:label", "i32"]
             R.inst(rule, "%s:%s-header" % (pname, nm), reads == want_prefix, sp=arm["sp"], expect=want_prefix, got=reads)
-            loops = [x for x in H.walk(arm["body"]) if x.get("k") == "for"]
+            loops = _iteration_bodies(arm["body"])
             lok = False
             lgot = None
             if len(loops) == 1:
-                lreads = [D.READ_WIDTH[H.callee_name(x)][1] for x in H.walk(loops[0]["body"]) if x.get("k") == "mcall" and H.callee_name(x) in D.READ_WIDTH]
+                lreads = [D.READ_WIDTH[H.callee_name(x)][1] for x in H.walk(loops[0]) if x.get("k") == "mcall" and H.callee_name(x) in D.READ_WIDTH]
                 lgot = lreads
                 lok = lreads == (["i32:label"] if nm == "tableswitch" else ["i32", "i32:label"])
             R.inst(rule, "%s:%s-entries" % (pname, nm), lok, sp=arm["sp"], expect="one i32 label per entry" if nm == "tableswitch" else "(i32 key, i32 label) per pair", got=lgot)
@@ -485,32 +485,110 @@ def r01_10(duke, R, S):
         frm = [b for b in duke.fns("from") if b.get("impl_ty") == adt and "From<u16>" in (b.get("impl_trait") or "")]
         into = [b for b in duke.fns("from") if b.get("impl_ty") == "u16" and ("From<%s>" % adt) in (b.get("impl_trait") or "")]
         if R.anchor("R01.10", "impl From<u16> for " + tyname, len(frm) == 1):
-            lits = [x for x in H.walk(frm[0]["body"]) if x.get("k") == "struct" and x.get("adt") == adt]
-            got = {}
-            if lits:
-                for f in lits[0]["fields"]:
-                    e = H.peel(f["e"], refs=False)
-                    # value & MASK != 0
-                    if e.get("k") == "bin" and e["op"] == "!=" and H.const_value(e["r"]) == 0:
-                        l = H.peel(e["l"], refs=False)
-                        if l.get("k") == "bin" and l["op"] == "&":
-                            got[f["name"]] = H.const_value(l["r"]) if H.local_of(l["l"]) else H.const_value(l["l"])
-            for fld, mask in masks.items():
-                n += 1
-                R.inst("R01.10", "%s.%s:from" % (tyname, fld), got.get(fld) == mask, sp=frm[0]["sp"], expect=hex(mask), got=hex(got[fld]) if isinstance(got.get(fld), int) else got.get(fld))
+            # the function is evaluated (partial evaluation of its text) at 0 and at each single bit: a field must be true exactly at its mask
+            table = {}
+            bad = None
+            for bit in [0] + [1 << k for k in range(16)]:
+                ev = FlagEvaluator()
+                res = ev.run_fn(frm[0], [("i", bit)])
+                if res[0] != "st" or any(v[0] != "b" for v in res[2].values()):
+                    bad = "From<u16> for %s does not evaluate to a struct of booleans at %#06x: %s" % (tyname, bit, T.show(res)[:120])
+                    break
+                for fld, v in res[2].items():
+                    if v[1]:
+                        table.setdefault(fld, []).append(bit)
+            if bad:
+                R.unrecognised("R01.10", "%s:from" % tyname, bad, frm[0]["sp"])
+            else:
+                for fld, mask in masks.items():
+                    n += 1
+                    got = table.get(fld, [])
+                    R.inst("R01.10", "%s.%s:from" % (tyname, fld), got == [mask], sp=frm[0]["sp"], expect=hex(mask), got=[hex(x) for x in got])
         if R.anchor("R01.10", "impl From<%s> for u16" % tyname, len(into) == 1):
+            # evaluated with exactly one field set (and with none): the result must be that field's mask (resp. 0)
+            bad = None
             got = {}
-            for x in H.walk(into[0]["body"]):
-                if x.get("k") == "if" and "else" in x:
-                    c = H.peel(x["cond"], refs=False)
-                    if c.get("k") == "field" and H.const_value(_tail(x["else"])) == 0:
-                        got[c["name"]] = H.const_value(_tail(x["then"]))
-            ors = [x for x in H.walk(into[0]["body"]) if x.get("k") == "bin"]
-            all_or = all(x["op"] == "|" for x in ors)
-            for fld, mask in masks.items():
-                n += 1
-                R.inst("R01.10", "%s.%s:into" % (tyname, fld), got.get(fld) == mask and all_or, sp=into[0]["sp"], expect=hex(mask), got=hex(got[fld]) if isinstance(got.get(fld), int) else got.get(fld))
+            for fld in [None] + list(masks):
+                ev = FlagEvaluator()
+                val = ("st", tyname, {f: ("b", f == fld) for f in fields})
+                res = ev.run_fn(into[0], [val])
+                if res[0] != "i":
+                    bad = "From<%s> for u16 does not evaluate to an integer with only %s set: %s" % (tyname, fld, T.show(res)[:120])
+                    break
+                got[fld] = res[1]
+            if bad:
+                R.unrecognised("R01.10", "%s:into" % tyname, bad, into[0]["sp"])
+            else:
+                R.inst("R01.10", "%s:into-empty" % tyname, got[None] == 0, sp=into[0]["sp"], expect=0, got=got[None], nontrivial=False)
+                for fld, mask in masks.items():
+                    n += 1
+                    R.inst("R01.10", "%s.%s:into" % (tyname, fld), got.get(fld) == mask, sp=into[0]["sp"], expect=hex(mask),
+                           got=hex(got[fld]) if isinstance(got.get(fld), int) else got.get(fld))
     R.floor("R01.10", 2 * 54)
+
+
+def _iteration_bodies(node):
+    """bodies executed once per element: `for` loops and the closures handed to the per-element iterator methods."""
+    out = []
+    for x in H.walk(node):
+        if x.get("k") == "for":
+            out.append(x["body"])
+        elif x.get("k") == "mcall" and H.callee_name(x) in ("try_for_each", "for_each", "map", "try_fold", "fold"):
+            for a in x.get("args", []):
+                a = H.peel(a)
+                if a.get("k") == "closure":
+                    out.append(a["body"])
+    return out
+
+
+class FlagEvaluator(T.Evaluator):
+    """Evaluator that also executes assignments to plain locals and calls of local closures - enough for straight-line bit twiddling."""
+
+    def ev(self, n, env):
+        k = n.get("k")
+        if k in ("assign", "assignop"):
+            l = H.peel(n["l"])
+            r = self.ev(n["r"], env)
+            lid = H.local_of(l)
+            if lid and l.get("k") == "path":
+                if k == "assign":
+                    env[lid[0]] = r
+                else:
+                    cur = env.get(lid[0], T.sym(lid[1]))
+                    op = n["op"].rstrip("=") if n["op"].endswith("=") and n["op"] not in ("==", "<=", ">=", "!=") else n["op"]
+                    if cur[0] == "i" and r[0] == "i" and op in ("|", "&", "+", "^", "-"):
+                        env[lid[0]] = ("i", {"|": cur[1] | r[1], "&": cur[1] & r[1], "+": cur[1] + r[1], "^": cur[1] ^ r[1], "-": cur[1] - r[1]}[op])
+                    else:
+                        env[lid[0]] = T.sym("%s %s %s" % (T.show(cur), n["op"], T.show(r)))
+                return ("t", [])
+            return T.Evaluator.ev(self, n, env)
+        if k == "call" and ((n.get("callee") or {}).get("r") == "local" or "f" in n):
+            c = n.get("callee") or {}
+            if c.get("r") == "local":
+                f = env.get(c["id"])
+            else:
+                f = self.ev(n["f"], env)
+            if f is not None and f[0] == "closure":
+                cn, cenv = f[1], dict(f[2])
+                args = [self.ev(a, env) for a in n["args"]]
+                for p, a in zip(cn["params"], args):
+                    T.match_pat(p, a, cenv)
+                try:
+                    return self.ev(cn["body"], cenv)
+                except T.Return as r:
+                    return r.v
+        if k == "bin" and n["op"] == "^":
+            l, r = self.ev(n["l"], env), self.ev(n["r"], env)
+            if l[0] == "i" and r[0] == "i":
+                return ("i", l[1] ^ r[1])
+        if k == "if":
+            # the blocks of an `if` share the environment of the function (assignments inside a taken branch must be visible afterwards)
+            cv = self.ev(n["cond"], env) if H.peel(n["cond"], refs=False).get("k") != "letexpr" else None
+            if cv == ("b", True):
+                return self.ev(n["then"], env)
+            if cv == ("b", False):
+                return self.ev(n["else"], env) if "else" in n else ("t", [])
+        return T.Evaluator.ev(self, n, env)
 
 
 def _tail(n):
